@@ -56,7 +56,8 @@ pub struct Plan {
     /// swarm knob: capacity of the driver's local-command channel (0 = the shipped 10 000)
     #[serde(default)]
     pub chan: usize,
-    /// boundary knob: the values of this key are 1..15 bytes below the maximum record size (5 MiB)
+    /// boundary knob: the values of this key are 1..15 bytes below the maximum record size (5 MiB); in C01 huge
+    /// and ordinary values of the key alternate
     #[serde(default)]
     pub huge_key: Option<usize>,
     pub steps: Vec<Step>,
@@ -246,7 +247,7 @@ impl Sim for StoreSim {
             probe_prefixes,
             filler,
             chan: if kind == "C01" && rng.chance(1, 3) { rng.urange(1, 4) } else { 0 },
-            huge_key: if kind == "C02" && rng.chance(1, 40) { Some(rng.usize_below(n_keys)) } else { None },
+            huge_key: if (kind == "C02" || kind == "C01") && rng.chance(1, 40) { Some(rng.usize_below(n_keys)) } else { None },
             steps,
         }
     }
